@@ -17,39 +17,7 @@ from ..gen import text as gtext
 from ..ref import content as rcontent
 
 
-class BudgetExceeded(BaseException):
-    pass
-
-
-class StepBudget:
-    """Counts penman line events; raises BudgetExceeded beyond *limit* (I1)."""
-
-    def __init__(self, limit=None):
-        self.limit = limit
-        self.steps = 0
-        self._prev = None
-
-    def _global(self, frame, event, arg):
-        if frame.f_code.co_filename.startswith(env.PENMAN_DIR):
-            return self._local
-        return None
-
-    def _local(self, frame, event, arg):
-        if event == 'line':
-            self.steps += 1
-            if self.limit is not None and self.steps > self.limit:
-                sys.settrace(None)
-                raise BudgetExceeded(self.steps)
-        return self._local
-
-    def __enter__(self):
-        self._prev = sys.gettrace()
-        sys.settrace(self._global)
-        return self
-
-    def __exit__(self, *a):
-        sys.settrace(self._prev)
-        return False
+from ..core.stall import BudgetExceeded, StepBudget  # noqa: E402,F401  (re-exported: lc.StepBudget)
 
 
 def pyconst(x, mode):
